@@ -145,3 +145,76 @@ contract('hl7apy.core:Segment.add', sig={'self': 'Segment', 'obj': 'Element'}, r
 contract('hl7apy.core:SubComponent.add', sig={'self': 'SubComponent', 'obj': 'any'}, returns='none',
          ensures=[('never_returns', 'False')], raises={'OperationNotAllowed': {}}, raises_only=['OperationNotAllowed'],
          modifies=[], allocates=False, properties=['C10', 'C12'])
+
+# ---- name resolution of the base class (C14): a child is looked up by the UPPER-CASED name in the by-name map first, then
+# in the by-long-name map; both maps hold the same entry objects (built by _parse_structure), so every spelling that hits
+# designates one entry.  Only when neither map has it is the version's library consulted (external, assumed).
+contract(
+    'hl7apy:find_reference',
+    sig={'name': 'str', 'element_types': 'any', 'version': 'str'},
+    returns='dict[any]?',
+    raises={'ChildNotFound': {}, 'UnsupportedVersion': {}},
+    modifies=[], allocates=True,
+    interface=True, verify=False,
+    notes='library lookup by name across element types (importlib): external, assumed',
+)
+
+_U = 'upper(name)'
+contract(
+    'hl7apy.core:Element.find_child_reference[impl]',
+    sig={'self': 'Element', 'name': 'str'},
+    returns='dict[any]?',
+    requires=['implies(self.structure_by_name is not None, self.structure_by_longname is not None)'],
+    ensures=[
+        ('by_name_first', 'implies(self.structure_by_name is not None and dhas(self.structure_by_name, %s) and '
+                          'nonempty_dict(dget_ref(self.structure_by_name, %s)), '
+                          'result is dget_ref(self.structure_by_name, %s))' % (_U, _U, _U)),
+        ('then_by_long_name', 'implies(self.structure_by_name is not None and not dhas(self.structure_by_name, %s) and '
+                              'dhas(self.structure_by_longname, %s) and nonempty_dict(dget_ref(self.structure_by_longname, %s)), '
+                              'result is dget_ref(self.structure_by_longname, %s))' % (_U, _U, _U, _U)),
+    ],
+    raises={'ChildNotValid': {'when': 'self.validation_level == 1'}, 'ChildNotFound': {}, 'UnsupportedVersion': {}},
+    raises_only=['ChildNotValid', 'ChildNotFound', 'UnsupportedVersion'],
+    modifies=[], allocates=True,
+    properties=['C14'],
+)
+
+_FCR_ENSURES = [
+    ('by_name_first', 'implies(self.structure_by_name is not None and dhas(self.structure_by_name, %s) and '
+                      'nonempty_dict(dget_ref(self.structure_by_name, %s)), '
+                      'result is dget_ref(self.structure_by_name, %s))' % (_U, _U, _U)),
+    ('then_by_long_name', 'implies(self.structure_by_name is not None and not dhas(self.structure_by_name, %s) and '
+                          'dhas(self.structure_by_longname, %s) and nonempty_dict(dget_ref(self.structure_by_longname, %s)), '
+                          'result is dget_ref(self.structure_by_longname, %s))' % (_U, _U, _U, _U)),
+]
+for _cls, _req in (('SupportComplexDataType', []), ('Segment', ['self.structure_by_name is not None']), ('Group', []), ('Message', [])):
+    contract(
+        'hl7apy.core:%s.find_child_reference' % _cls if _cls != 'Segment' else 'hl7apy.core:Segment.find_child_reference',
+        sig={'self': _cls, 'name': 'str'},
+        returns='dict[any]?',
+        requires=['implies(self.structure_by_name is not None, self.structure_by_longname is not None)'] + _req,
+        ensures=list(_FCR_ENSURES),
+        raises={'ChildNotValid': {}, 'ChildNotFound': {}, 'UnsupportedVersion': {}},
+        raises_only=['ChildNotValid', 'ChildNotFound', 'UnsupportedVersion'],
+        modifies=[], allocates=True,
+        exact_self=True,
+        properties=['C14'],
+        notes='the override restates the lookup order of the base class; what it adds (Z-names, open-ended segments, strictness) '
+              'only concerns names that neither map holds',
+    )
+
+# ---- is_unknown(): three one-line definitions, one interface
+contract('hl7apy.core:Element.is_unknown', sig={'self': 'Element'}, returns='bool',
+         ensures=[('answer', 'result == is_unknown_of(self)')], raises={}, raises_only=[], modifies=[],
+         interface=True, verify=False, properties=['C04'],
+         notes='interface: proved for each of the three definitions under the [impl] keys below')
+for _cls, _guard in (('Element', 'not is_varies_class(self)'), ('SupportComplexDataType', 'is_varies_class(self)'),
+                     ('CanBeVaries', 'is_varies_class(self)')):
+    contract('hl7apy.core:%s.is_unknown[impl]' % _cls, sig={'self': 'SubComponent' if _cls == 'CanBeVaries' else _cls}, returns='bool',
+             requires=[_guard],
+             ensures=[('answer', 'result == is_unknown_of(self)')], raises={}, raises_only=[], modifies=[],
+             exact_self=True, properties=['C04'])
+
+contract('hl7apy.core:Element.is_z_element', sig={'self': 'Element'}, returns='bool',
+         raises={}, raises_only=[], modifies=[], interface=True, verify=False, properties=['C04'],
+         notes='four pure one-line definitions (False / a name pattern test): assumed pure; which answer is given is not used')
